@@ -10,6 +10,9 @@
    The G*.X definitions are regenerated from /repo on every run. *)
 From Coq Require Import Reals.
 From JV Require Import RLemmas GChannels GSynapses GateSpec OdeFacts ChannelFacts.
+From Coq Require Import ZArith Lia.
+From Flocq Require Import Core.
+From JV Require Import GSolverGate GateFloat.
 Local Open Scope R_scope.
 
 Section C03.
@@ -90,3 +93,36 @@ Proof. exact ode_solution_is_solution. Qed.
 (* non-vacuity: a state, a step and a voltage satisfying the hypotheses *)
 Example C03_nonvacuous : 0 < 1 / 40 /\ 0 <= 1 / 5 <= 1 /\ 0 < 1 / 40.
 Proof. exact c03_example. Qed.
+
+(* ---- floating point ----
+   the traced updates ARE  x * E + x_inf * (1 - E)  with E = save_exp(-dt/tau) (by conversion: the operation order of
+   the jaxpr), and that expression, evaluated in binary64 or binary32 with round-to-nearest-even - every operation
+   rounded, or the first product fused into the addition - stays in [0, 1] for floats x, x_inf, E in [0, 1].
+   (Trusted: XLA's +, -, * are IEEE operations and its exp of a non-positive float lies in [0, 1]; both are sampled by the
+   float corner sweep of the harness.) *)
+Theorem C03_update_shape : forall x dt xinf tau,
+  exponential_euler__r x dt xinf tau = x * save_exp__r (- dt / tau) + xinf * (1 - save_exp__r (- dt / tau)) /\
+  solve_inf_gate_exponential__r x dt xinf tau = x * save_exp__r (-1 / tau * dt) + xinf * (1 - save_exp__r (-1 / tau * dt)).
+Proof. intros. split; reflexivity. Qed.
+
+Theorem C03_update_in_unit_interval_binary64 : forall x xinf e,
+  generic_format radix2 (FLT_exp (-1074) 53) x -> generic_format radix2 (FLT_exp (-1074) 53) xinf -> generic_format radix2 (FLT_exp (-1074) 53) e ->
+  0 <= x <= 1 -> 0 <= xinf <= 1 -> 0 <= e <= 1 ->
+  0 <= rn64 (rn64 (x * e) + rn64 (xinf * rn64 (1 - e))) <= 1 /\ 0 <= rn64 (x * e + rn64 (xinf * rn64 (1 - e))) <= 1.
+Proof. exact gate_update_binary64. Qed.
+
+Theorem C03_update_in_unit_interval_binary32 : forall x xinf e,
+  generic_format radix2 (FLT_exp (-149) 24) x -> generic_format radix2 (FLT_exp (-149) 24) xinf -> generic_format radix2 (FLT_exp (-149) 24) e ->
+  0 <= x <= 1 -> 0 <= xinf <= 1 -> 0 <= e <= 1 ->
+  0 <= rn32 (rn32 (x * e) + rn32 (xinf * rn32 (1 - e))) <= 1 /\ 0 <= rn32 (x * e + rn32 (xinf * rn32 (1 - e))) <= 1.
+Proof. exact gate_update_binary32. Qed.
+
+(* non-vacuity: 1, 0 and 1/2 are binary64 numbers in [0, 1] *)
+Example C03_float_nonvacuous :
+  generic_format radix2 (FLT_exp (-1074) 53) 1 /\ generic_format radix2 (FLT_exp (-1074) 53) 0 /\ generic_format radix2 (FLT_exp (-1074) 53) (/ 2).
+Proof.
+  split; [|split].
+  - change 1 with (bpow radix2 0). apply generic_format_bpow. unfold FLT_exp. lia.
+  - apply generic_format_0.
+  - change (/ 2) with (bpow radix2 (-1)). apply generic_format_bpow. unfold FLT_exp. lia.
+Qed.
